@@ -57,9 +57,10 @@ def build(i, check):
     triggers = []
     if kind == "wait-optional":
         t = Opt(rng.choice([Ref("A", "outputs", "success", "tag"), Ref("A", "outputs", "success", "tag"), Ref("A", "disabled", "output", "message"), Ref("A", "enabling", "resolved", "enabled"),
-                            Ref("A", "crashed", "error", "output"), Ref("A", "deploy_failed", "error", "error"), Ref("A", "outputs", "error", "reason")]), True)
+                            Ref("A", "crashed", "error", "output"), Ref("A", "deploy_failed", "error", "error"), Ref("A", "outputs", "error", "reason"), Ref("A", "outputs"), Ref("A", "outputs", "success")]), True)
     elif kind == "soft-optional":
-        t = Opt(Ref("A", "outputs", "success", "tag"), False)
+        # also the whole stage / the whole output object: present means the source's value, never a placeholder
+        t = Opt(rng.choice([Ref("A", "outputs", "success", "tag"), Ref("A", "outputs", "success", "tag"), Ref("A", "outputs"), Ref("A", "outputs", "success")]), False)
     elif kind == "soft-optional-never-ending":
         t = Opt(Ref("A", "outputs", "success", "tag"), False)
         outcome["A"] = "hang"
@@ -98,6 +99,16 @@ def build(i, check):
         order = "free"
     g = {"program": prog, "scripts": scripts, "input": {"tag": "T1", "flag": True}, "shape": "%s/%s/%s A=%s B=%s %s" % (kind, where, consumer_kind, oa, ob, order),
          "outcome": outcome, "kind": kind, "oa": oa, "ob": ob}
+    if rng.random() < 0.2 and ob not in NO_EXEC and order == "free":
+        # the engine is configured to log `success` outputs and its log target is slow; the other source's deployment takes a
+        # moment, so that its stage changes fall into the time the first source's output is being logged
+        g["logged_outputs"] = {"success": rng.choice([20, 40])}
+        ds = scripts["B"].get("deploys") or [{}, {}]
+        while len(ds) < 2:
+            ds.append({})
+        ds[1] = dict(ds[1], delay_ms=rng.choice([5, 15, 30]))
+        scripts["B"]["deploys"] = ds
+        g["shape"] += " slow-output-log"
     return g, triggers
 
 
@@ -187,6 +198,8 @@ def run(check):
         if not r["avail"] and r["pending"]:
             continue  # nothing can end the run: not this property's business
         opts = {"triggers": trig} if trig else {}
+        if g.get("logged_outputs"):
+            opts["logged_outputs"] = g["logged_outputs"]
         case, sem = runfam.build_case("c15-%05d" % i, g, **opts)
         items.append((case, sem, g))
     stats = {"kinds": {}, "present": 0, "absent": 0, "discriminators": {}}
